@@ -56,6 +56,16 @@ def make_request(rng, ins, outs, mode):
             if rng.random() < 0.8:
                 o[f"ot{j}"] = B.op17.identity(a)
         return dict(items), o, drop
+    if mode == "generated_name_of_missing":
+        # a used argument is NOT listed, while unused arguments are listed under the names the builder would generate for it
+        dep = B.dependency_arguments(list(outs.values()))
+        used = [(k, v) for k, v in items if any(v is d for d in dep)]
+        if used:
+            k0, v0 = rng.choice(used)
+            items = [(k, v) for k, v in items if v is not v0]
+            for j in range(4):
+                items.insert(rng.randint(0, len(items)), (f"Argument_{j}_arg", B.argument(B.Tensor(np.float64, (3,)))))
+        return dict(items), outs, True
     if mode == "bad_input_kind":
         items.insert(rng.randint(0, len(items)), ("bad", rng.choice([1, "x", None, 2.5])))
         return dict(items), outs, drop
@@ -122,7 +132,7 @@ def direct_oracle(c: B.Case):
 def gen_cases(run: Run, n: int):
     rng = run.rng
     g = B.GenX(rng, leak_p=0.0)
-    modes = ["asis"] * 2 + ["after_failed_build"] * 3 + ["permute"] * 4 + ["subset"] * 3 + ["extra"] * 3 + ["varied_types"] * 4 + ["bad_input_kind", "bad_output_kind", "non_argument_input", "no_outputs"]
+    modes = ["asis"] * 2 + ["after_failed_build"] * 3 + ["permute"] * 4 + ["subset"] * 3 + ["extra"] * 3 + ["varied_types"] * 4 + ["generated_name_of_missing"] * 2 + ["bad_input_kind", "bad_output_kind", "non_argument_input", "no_outputs"]
     cases = []
     while len(cases) < n:
         ins, outs = g.program()
